@@ -71,6 +71,8 @@ pub struct PRun {
   /// (stamp, is_closed) sampled after every action while the handle exists
   pub closed: Vec<(u64, bool)>,
   pub panic: Option<String>,
+  /// terminals the group consumers of GroupTap nodes were told: (key, kind)
+  pub group_terminals: Vec<(i64, u8)>,
   /// panics of the injected subscriber fault that surfaced in the harness
   pub injected_panics: u64,
   pub post_terminal_inputs: u64,
@@ -415,6 +417,7 @@ fn run_pipeline_inner(case: &PCase, mut pool: Option<&mut futures::executor::Loc
   run.inner_build_stamps = counters.inner_builds.lock().unwrap().clone();
   run.locks = st.locks.load(SeqCst);
   run.finalizers = counters.finalizers.load(SeqCst);
+  run.group_terminals = counters.group_terminals.lock().unwrap().clone();
   run.sim_ns = w.now();
   run.live_tasks_end = w.live_tasks();
   run.live_timers_end = w.live_timers();
